@@ -1,7 +1,7 @@
 (* C11 — voting rules treat voters and alternatives symmetrically. Statements only. *)
 From Coq Require Import ZArith QArith List Bool Lia Permutation.
 Import ListNotations.
-From SCK Require Import Voting ScoreProof VoteMore.
+From SCK Require Import Voting ScoreProof VoteMore CopelandSym.
 Local Open Scope Z_scope.
 
 (* anonymity: any reordering of the voters leaves every score unchanged (all five positional rules) *)
@@ -27,3 +27,19 @@ Theorem C11_equal_rank_multisets_tie : forall r k P m j j',
   (nth j (score r k P) 0 == nth j' (score r k P) 0)%Q.
 Proof. exact equal_columns_tie. Qed.
 Print Assumptions C11_equal_rank_multisets_tie.
+
+(* Copeland: anonymity, and neutrality under every permutation sigma of the alternatives *)
+Theorem C11_copeland_anonymous : forall P P', Permutation P P' -> length (nth 0 P []) = length (nth 0 P' []) -> copeland P = copeland P'.
+Proof. exact copeland_anonymous. Qed.
+Print Assumptions C11_copeland_anonymous.
+Theorem C11_copeland_neutral : forall P m sigma, (forall row, In row P -> length row = m) -> length (nth 0 P []) = m ->
+  Permutation (map sigma (seq 0 m)) (seq 0 m) ->
+  forall i, (i < m)%nat -> nth i (copeland (rename sigma m P)) 0 = nth (sigma i) (copeland P) 0.
+Proof. exact copeland_neutral. Qed.
+Print Assumptions C11_copeland_neutral.
+(* STV: the winner does not depend on the order of the voters, for every sequence of tie-break answers *)
+Theorem C11_stv_anonymous : forall fuel P P' alts oracle, Permutation P P' -> stv_loop fuel P alts oracle = stv_loop fuel P' alts oracle.
+Proof. exact stv_anonymous. Qed.
+Print Assumptions C11_stv_anonymous.
+(* NOT proved (metamorphic oracle on the implementation only): STV neutrality without elimination ties; symmetry of the
+   utilitarian, k-ARV and lambda-PRV scores (sums of real values; exact in the rational models by the same argument). *)
